@@ -13,6 +13,7 @@ from ..core.program import AnalysisError, ClassInfo, FunctionInfo, Program, ance
 from ..engines.inftaint import InfTaint
 from ..report import Result
 from ..runner import Variant
+from . import _match
 
 PROP = "C09"
 EXPLANATION = (
@@ -23,7 +24,9 @@ EXPLANATION = (
     "any()/all() over index values; (arity) no call passes an element where the callee iterates a List[T] parameter; "
     "(once) track() emits each tracked instance through at most one append per iteration, skipping only instances "
     "without a track id, and returns that list; (iface) every self.candidate.<m>(...) call resolves with a fitting "
-    "signature in BOTH candidate classes; (inf) no infinite cost constant can flow into scipy linear_sum_assignment "
+    "signature in BOTH candidate classes; (match) greedy_matching is one-to-one: in the edge-list idiom every edge sharing the "
+    "chosen row OR column is deleted (backwards), in the masked arg-min idiom row AND column are masked on a private copy and "
+    "a non-finite minimum leaves the loop; (inf) no infinite cost constant can flow into scipy linear_sum_assignment "
     "(inter-procedural taint through returns, arguments and the matching-method registry)."
 )
 TRUSTED = [
@@ -55,7 +58,8 @@ def check_alloc(prog: Program, res: Result, rule: str = "C09-alloc") -> None:
             else:
                 vals.append(v)
         texts = sorted(norm(v) for v in vals)
-        ok = texts == ["0", "max(self.current_tracks) + 1"]
+        # len(current_tracks) equals max+1 because ids are exactly 0..n-1 (registered once each, never removed: checked below)
+        ok = texts in (["0", "max(self.current_tracks) + 1"], ["0", "len(self.current_tracks)"], ["len(self.current_tracks)"])
         res.ob(rule, ok, g.qualname, "new id is 0 or max(self.current_tracks) + 1",
                f"a new track id is computed as {texts}: ids may be reused or collide (two animals with one identity)", g.where,
                sample={"values": texts})
@@ -365,6 +369,7 @@ def check(prog: Program, res: Result) -> None:
     check_once(prog, res)
     check_iface(prog, res)
     check_inf(prog, res, "C09-inf", "sleap_nn.tracking")
+    _match.check_greedy(prog, res, "C09-match")
     res.assumptions += [
         "the behaviour over histories beyond these necessary conditions (e.g. that the right track is chosen) is not decided",
     ]
@@ -373,6 +378,7 @@ def check(prog: Program, res: Result) -> None:
 FWF = "sleap_nn/tracking/candidates/fixed_window.py"
 LQF = "sleap_nn/tracking/candidates/local_queues.py"
 TRF = "sleap_nn/tracking/tracker.py"
+UTF = "sleap_nn/tracking/utils.py"
 VARIANTS = [
     Variant("truth-any", FWF, "        if len(row_inds) > 0 and len(col_inds) > 0:", "        if np.any(row_inds) and np.any(col_inds):", "C09-truth"),
     Variant("truth-method-any", LQF, "        if len(row_inds) > 0 and len(col_inds) > 0:", "        if row_inds.any() and len(col_inds) > 0:", "C09-truth"),
@@ -393,6 +399,11 @@ VARIANTS = [
     Variant("inf-second-source", TRF, "        scores = np.zeros(\n            (len(current_instances_features), len(self.candidate.current_tracks))\n        )",
             "        scores = np.full(\n            (len(current_instances_features), len(self.candidate.current_tracks)), -np.inf\n        )", "C09-inf"),
     # behaviour preserving
+    Variant("match-mask-unguarded", UTF, '    # Sort edges by ascending cost.\n    rows, cols = np.unravel_index(np.argsort(cost_matrix, axis=None), cost_matrix.shape)\n    unassigned_edges = list(zip(rows, cols))\n\n    # Greedily assign edges.\n    row_inds, col_inds = [], []\n    while len(unassigned_edges) > 0:\n        # Assign the lowest cost edge.\n        row_ind, col_ind = unassigned_edges.pop(0)\n        row_inds.append(row_ind)\n        col_inds.append(col_ind)\n\n        # Remove all other edges that contain either node (in reverse order).\n        for i in range(len(unassigned_edges) - 1, -1, -1):\n            if unassigned_edges[i][0] == row_ind or unassigned_edges[i][1] == col_ind:\n                del unassigned_edges[i]\n', '    cost = np.array(cost_matrix, dtype="float64")\n    row_inds, col_inds = [], []\n    for _ in range(min(cost.shape)):\n        row_ind, col_ind = np.unravel_index(np.argmin(cost), cost.shape)\n        row_inds.append(row_ind)\n        col_inds.append(col_ind)\n        cost[row_ind, :] = np.inf\n        cost[:, col_ind] = np.inf\n', "C09-match"),
+    Variant("match-mask-row-only", UTF, '    # Sort edges by ascending cost.\n    rows, cols = np.unravel_index(np.argsort(cost_matrix, axis=None), cost_matrix.shape)\n    unassigned_edges = list(zip(rows, cols))\n\n    # Greedily assign edges.\n    row_inds, col_inds = [], []\n    while len(unassigned_edges) > 0:\n        # Assign the lowest cost edge.\n        row_ind, col_ind = unassigned_edges.pop(0)\n        row_inds.append(row_ind)\n        col_inds.append(col_ind)\n\n        # Remove all other edges that contain either node (in reverse order).\n        for i in range(len(unassigned_edges) - 1, -1, -1):\n            if unassigned_edges[i][0] == row_ind or unassigned_edges[i][1] == col_ind:\n                del unassigned_edges[i]\n', '    cost = np.array(cost_matrix, dtype="float64")\n    row_inds, col_inds = [], []\n    for _ in range(min(cost.shape)):\n        row_ind, col_ind = np.unravel_index(np.argmin(cost), cost.shape)\n        if not np.isfinite(cost[row_ind, col_ind]):\n            break\n        row_inds.append(row_ind)\n        col_inds.append(col_ind)\n        cost[row_ind, :] = np.inf\n', "C09-match"),
+    Variant("match-and", UTF, "            if unassigned_edges[i][0] == row_ind or unassigned_edges[i][1] == col_ind:", "            if unassigned_edges[i][0] == row_ind and unassigned_edges[i][1] == col_ind:", "C09-match"),
+    Variant("bp-match-mask-guarded", UTF, '    # Sort edges by ascending cost.\n    rows, cols = np.unravel_index(np.argsort(cost_matrix, axis=None), cost_matrix.shape)\n    unassigned_edges = list(zip(rows, cols))\n\n    # Greedily assign edges.\n    row_inds, col_inds = [], []\n    while len(unassigned_edges) > 0:\n        # Assign the lowest cost edge.\n        row_ind, col_ind = unassigned_edges.pop(0)\n        row_inds.append(row_ind)\n        col_inds.append(col_ind)\n\n        # Remove all other edges that contain either node (in reverse order).\n        for i in range(len(unassigned_edges) - 1, -1, -1):\n            if unassigned_edges[i][0] == row_ind or unassigned_edges[i][1] == col_ind:\n                del unassigned_edges[i]\n', '    cost = np.array(cost_matrix, dtype="float64")\n    row_inds, col_inds = [], []\n    for _ in range(min(cost.shape)):\n        row_ind, col_ind = np.unravel_index(np.argmin(cost), cost.shape)\n        if not np.isfinite(cost[row_ind, col_ind]):\n            break\n        row_inds.append(row_ind)\n        col_inds.append(col_ind)\n        cost[row_ind, :] = np.inf\n        cost[:, col_ind] = np.inf\n', None),
+    Variant("bp-alloc-len-current", FWF, "            new_track_id = max(self.current_tracks) + 1", "            new_track_id = len(self.current_tracks)", None),
     Variant("bp-len-form", FWF, "        if len(row_inds) > 0 and len(col_inds) > 0:", "        if len(row_inds) != 0 and len(col_inds) != 0:", None),
     Variant("bp-list-wrap-name", LQF, "                    self.add_new_tracks([current_instances[ind]])", "                    newcomer = [current_instances[ind]]\n                    self.add_new_tracks(newcomer)", None),
     Variant("bp-alloc-reorder", LQF, "                t.track_id = new_track_id\n                t.tracking_score = 1.0\n                self.current_tracks.append(new_track_id)",
